@@ -448,6 +448,9 @@ var c16Table = []struct {
 	{"directive-and-type-share-a-name-three-loads",
 		"directive @foo on OBJECT\ntype foo { b: Int }\ntype Query @foo { a: foo }",
 		[]string{"type foo { b: Int }", "directive @foo on OBJECT", "type Query @foo { a: foo }"}},
+	{"repeated-union-member",
+		"type Query { a: U }\ntype A { x: Int }\nunion U = A | A",
+		[]string{"type Query { a: U }\ntype A { x: Int }\nunion U = A", "extend union U = A"}},
 	{"extend-implied-schema",
 		"type Query { a: Int }\ntype M { b: Int }\nextend schema { mutation: M }",
 		[]string{"type Query { a: Int }\ntype M { b: Int }", "extend schema { mutation: M }"}},
